@@ -1201,15 +1201,19 @@ func runCompPlan(t *testing.T, planAny any, ctl Ctl) *Result {
 		// can run under: a value that is going to be refused must not be in force even for a moment
 		// (a cleanup cycle or a late notification handler that falls into that moment acts on it).
 		unworkableSeen := ""
+		inUpdate := -1                 // index of the update being applied, as the scheduler sees it
+		seenDuring := map[string]bool{} // what a component would have read at the steps of that update
 		s.OnStep = func(step int) {
-			if unworkableSeen != "" {
-				return
-			}
 			s.Exempt()
 			lim, iv, pct, sh := cfg.Cache.MaxCacheSize.Read().Bytes(), cfg.Cache.CleanupInterval.Read().Cast(), cfg.Cache.Memory.MemoryBudgetPercent.Read(), cfg.Cache.LockShards.Read()
 			lst, dir := cfg.Proxy.Listen.Read(), cfg.Cache.File.Dir.Read()
+			lvl := cfg.Logging.Level.Read()
 			s.Unexempt()
+			if inUpdate >= 0 {
+				seenDuring[fmt.Sprintf("limit=%d interval=%v budget=%d%% shards=%d listen=%s dir=%s level=%v", lim, iv, pct, sh, lst, dir, lvl)] = true
+			}
 			switch {
+			case unworkableSeen != "":
 			case lim <= 0:
 				unworkableSeen = fmt.Sprintf("cache.max_cache_size=%d", lim)
 			case iv <= 0:
@@ -1223,7 +1227,7 @@ func runCompPlan(t *testing.T, planAny any, ctl Ctl) *Result {
 			case dir == "":
 				unworkableSeen = "cache.file.dir empty"
 			}
-			if unworkableSeen != "" {
+			if unworkableSeen != "" && !strings.Contains(unworkableSeen, " at step ") {
 				unworkableSeen += fmt.Sprintf(" at step %d", step)
 			}
 		}
@@ -1309,13 +1313,31 @@ func runCompPlan(t *testing.T, planAny any, ctl Ctl) *Result {
 						res.Faults["persist_short_write"]++
 					}
 				}
+				for k := range seenDuring {
+					delete(seenDuring, k)
+				}
+				inUpdate = i
 				st, uerr := config.UpdatePartialFromConfig(cfg, doc)
+				inUpdate = -1
 				restore()
 				settle() // let every notification task run
 				settle()
 				after := snapshot()
 				res.Evals++
 				failed := uerr != nil || st == config.UpdateStatusFailed
+				if failed && !p.Hasty {
+					// C18.a, step by step: while an update that ends refused (or failed) was being applied,
+					// nothing but the values in force before it may have been readable. (Not judged when an
+					// earlier, accepted update was deliberately left unsettled: its values arrive meanwhile.)
+					var other []string
+					for k := range seenDuring {
+						other = append(other, k)
+					}
+					sort.Strings(other)
+					if len(other) > 1 {
+						res.violate("C18.a", "refused-value-in-force-for-a-moment"+map[bool]string{true: " (file write failed)", false: ""}[p.PersistAt > 0 && i == faultIdx], "while update %s, which ended refused, was applied, components could read %d different configurations: %s [history: %s]", ch.Doc, len(other), strings.Join(other, " | "), history)
+					}
+				}
 				if failed {
 					res.Probes["update_rejected"]++
 					// C18.a: nothing changed anywhere
